@@ -179,6 +179,8 @@ def check_primitive(ctx, fi, spec, flags):
     # the quality symbol: follow the quality variable to its symbol
     qv = ex.env.get(spec['quality'])
     qsym = spec['quality']
+    if isinstance(qv, Alg) and qv.is_rat() and len(qv.rat().symbols()) == 1 and qv.eq(sym(list(qv.rat().symbols())[0])):
+        qsym = list(qv.rat().symbols())[0]      # the quality vector is a plain copy / array view of another local
     coef = L.diff(qsym)
     linear = qsym not in coef.symbols()
     eps = ex.env.get(spec['eps'])
